@@ -160,8 +160,9 @@ def at(items, i):
 
 
 class FnDef:
-    def __init__(self, impl, name, pub, has_self, body, line):
+    def __init__(self, impl, name, pub, has_self, body, line, params=()):
         self.impl, self.name, self.pub, self.has_self, self.body, self.line = impl, name, pub, has_self, body, line
+        self.params = set(params)   # names of the parameters (`name :` inside the parameter list)
 
 
 def find_fns(items, impl, out):
@@ -182,7 +183,12 @@ def find_fns(items, impl, out):
             pub = is_id(at(items, i - 1), "pub") or (is_grp(at(items, i - 1), "(") and is_id(at(items, i - 2), "pub"))
             has_self = params is not None and any(is_id(x, "self") for x in params.items)
             if body is not None:
-                out[(impl, name)] = FnDef(impl, name, pub, has_self, body, t.line)
+                pnames = []
+                if params is not None:
+                    for q in range(len(params.items) - 1):
+                        if is_id(params.items[q]) and is_p(params.items[q + 1], ":") and not is_p(at(params.items, q + 2), ":"):
+                            pnames.append(params.items[q].text)
+                out[(impl, name)] = FnDef(impl, name, pub, has_self, body, t.line, pnames)
             i = k + 1
             continue
         i += 1
@@ -268,6 +274,13 @@ class Translator:
         self.memo, self.active = {}, []
         self.sites = {}        # fn key -> list of "L<line> lock.mode"
         self.recognised = {"guard": 0, "temp": 0, "commit": 0, "wrapper": 0, "inline": 0, "callback": 0}
+        # configuration (overridden by the node-level translator of gen_locks_node.py)
+        self.lock_fields, self.subobjects = LOCK_FIELDS, SUBOBJECTS
+        self.store_fields, self.callback_fields = STORE_FIELDS, CALLBACK_FIELDS
+
+    def pre(self, items, i, ctx):
+        """hook for subclasses: recognise a construct at items[i]; return the number of tokens consumed (0 = not mine)"""
+        return 0
 
     def die(self, msg):
         self.die_(f"gen_locks: {self.fname}: {msg}")
@@ -279,7 +292,8 @@ class Translator:
             self.die(f"recursive call cycle through {key[0]}::{key[1]} — cannot inline")
         self.active.append(key)
         fd = self.fns[key]
-        ctx = {"impl": fd.impl, "out": [], "scopes": [], "temps": [], "fn": fd.name, "scratch": 0}
+        ctx = {"impl": fd.impl, "out": [], "scopes": [], "temps": [], "fn": fd.name, "scratch": 0,
+               "status": "status" in fd.params}
         self.block(fd.body.items, ctx, plain=True)
         self.active.pop()
         self.memo[key] = ctx["out"]
@@ -329,9 +343,9 @@ class Translator:
         if is_id(t, "self") and is_p(at(items, i + 1), ".") and is_id(at(items, i + 2)) and is_p(at(items, i + 3), ".") \
                 and is_id(at(items, i + 4)) and is_grp(at(items, i + 5), "(") and not at(items, i + 5).items:
             f, m = items[i + 2].text, items[i + 4].text
-            if (impl, f) in LOCK_FIELDS and m in ("read", "write"):
-                return (LOCK_FIELDS[(impl, f)], "R" if m == "read" else "W", 6)
-            if (impl, f) in STORE_FIELDS and m == "batch":
+            if (impl, f) in self.lock_fields and m in ("read", "write"):
+                return (self.lock_fields[(impl, f)], "R" if m == "read" else "W", 6)
+            if (impl, f) in self.store_fields and m == "batch":
                 return ("batch", "W", 6)
         # `store.batch()` on a parameter / local named `store`
         if is_id(t, "store") and not is_p(at(items, i - 1), ".") and is_p(at(items, i + 1), ".") and is_id(at(items, i + 2), "batch") \
@@ -382,7 +396,8 @@ class Translator:
 
     def scratch(self, items, ctx, what):
         """process `items` in a scratch context; it must not produce any event"""
-        sub = {"impl": ctx["impl"], "out": [], "scopes": [Scope(False)], "temps": [[]], "fn": ctx["fn"], "scratch": 1}
+        sub = {"impl": ctx["impl"], "out": [], "scopes": [Scope(False)], "temps": [[]], "fn": ctx["fn"], "scratch": 1,
+               "status": False}
         self.walk(items, sub, stmt_start=False)
         if sub["out"] or sub["temps"][0]:
             self.die(f"{what} in fn {ctx['fn']} acquires locks; its execution context is unknown")
@@ -395,6 +410,15 @@ class Translator:
         impl = ctx["impl"]
         while i < n:
             t = items[i]
+            k = self.pre(items, i, ctx)
+            if k:
+                i += k; continue
+            # -- the sync-status callback object (`status: &dyn TxHashsetWriteStatus` / `Arc<SyncState>` parameter):
+            # a method call on it, or handing it to a callee, may take the SyncState leaf locks here
+            if ctx.get("status") and is_id(t, "status") and not is_p(at(items, i - 1), ".") and not is_p(at(items, i - 1), "::") \
+                    and not is_p(at(items, i + 1), ":"):
+                self.emit(ctx, ("mark", "status", t.line))
+                self.recognised["status"] = self.recognised.get("status", 0) + 1
             # -- direct lock call (temporary)
             lc = self.lock_call_at(items, i, ctx)
             if lc:
@@ -427,33 +451,33 @@ class Translator:
                     i += 4; continue
                 if is_p(at(items, i + 3), ".") and is_id(at(items, i + 4)) and is_grp(at(items, i + 5), "("):
                     b, args = items[i + 4].text, items[i + 5]
-                    if (impl, a) in SUBOBJECTS:
-                        key = (SUBOBJECTS[(impl, a)], b)
+                    if (impl, a) in self.subobjects:
+                        key = (self.subobjects[(impl, a)], b)
                         if key not in self.fns:
                             self.die(f"line {t.line}: self.{a}.{b}(…): unknown method of {key[0]}")
                         self.walk(args.items, ctx)
                         self.inline(ctx, key, t.line)
                         i += 6; continue
-                    if (impl, a) in LOCK_FIELDS:
+                    if (impl, a) in self.lock_fields:
                         if b != "clone":
                             self.die(f"line {t.line}: self.{a}.{b}(…) on a lock field is not a recognised locking construct")
                         i += 6; continue
-                    if (impl, a) in STORE_FIELDS and b in LOCK_METHODS:
+                    if (impl, a) in self.store_fields and b in LOCK_METHODS:
                         self.die(f"line {t.line}: self.{a}.{b}(…) not understood")
-                    if (impl, a) in STORE_FIELDS and b != "clone":
+                    if (impl, a) in self.store_fields and b != "clone":
                         # a read of LMDB through the store handle: a read transaction of its own (one
                         # snapshot); whether it falls inside a lock region is decided on the Lean side
                         self.walk(args.items, ctx)
                         self.emit(ctx, ("mark", "dbread", t.line))
                         self.recognised["dbread"] = self.recognised.get("dbread", 0) + 1
                         i += 6; continue
-                    if (impl, a) in CALLBACK_FIELDS:
+                    if (impl, a) in self.callback_fields:
                         self.walk(args.items, ctx)
                         self.emit(ctx, ("mark", "callback", t.line))
                         self.recognised["callback"] += 1
                         i += 6; continue
                 # a field of lock type used in any other way must be looked at by a human
-                if (impl, a) in LOCK_FIELDS and not (is_p(at(items, i + 3), ".") and is_id(at(items, i + 4), "clone")):
+                if (impl, a) in self.lock_fields and not (is_p(at(items, i + 3), ".") and is_id(at(items, i + 4), "clone")):
                     self.die(f"line {t.line}: lock field self.{a} used in an unrecognised way")
                 i += 3; continue
             # -- path call  a::b::c(args)
@@ -581,7 +605,11 @@ def show(evs):
     return " ".join(out)
 
 
-def generate(repo_root, die):
+_CACHE = {}
+
+
+def _build(repo_root, die):
+    if repo_root in _CACHE: return _CACHE[repo_root]
     chain_rs = os.path.join(repo_root, "chain/src/chain.rs")
     ts_rs = os.path.join(repo_root, "chain/src/txhashset/txhashset.rs")
     pipe_rs = os.path.join(repo_root, "chain/src/pipe.rs")
@@ -674,6 +702,18 @@ def generate(repo_root, die):
             die(f"gen_locks: pub fn {must} of impl Desegmenter not found")
     seg_table = seg_table + des_table
 
+    _CACHE[repo_root] = (table, seg_table, des_table, wrappers, skipped, tr)
+    return _CACHE[repo_root]
+
+
+def chain_level_rows(repo_root, die):
+    """(name, line, events) of every entry of the chain-level table (for gen_locks_node.py)"""
+    table, seg_table = _build(repo_root, die)[:2]
+    return table + seg_table
+
+
+def generate(repo_root, die):
+    table, seg_table, des_table, wrappers, skipped, tr = _build(repo_root, die)
     n_acq = sum(1 for _, _, evs in table + seg_table for e in evs if e[0] == "acq")
     print(f"gen_locks: {len(table)} pub fns of impl Chain (+{len(seg_table) - len(des_table)} of impl Segmenter, +{len(des_table)} of impl Desegmenter), {n_acq} acquisitions after inlining; "
           f"recognised in chain.rs: {tr.recognised}; batch wrappers in txhashset.rs: {wrappers}; skipped (no self): {skipped}",
